@@ -45,6 +45,19 @@ def intProd (n c p : Var) (lb : Rat) (ubN : Nat) (name : String) : LP :=
          ++ bits.flatMap (fun i => binProd (bitVar name i) c (compVar name i) lb ub)
          ++ [rowEq (bits.map (fun i => (((2:Rat)^i), compVar name i)) ++ [(-1, p)]) 0] }
 
+/-- `add_integer_continuous_product_constraint` for a bound `ub` that need not be a natural number
+(e.g. `w_max * max(path_length_factors)`, a non-integral `total`): `ceil(log2(ub + 1))` is the least
+`n` with `⌈ub⌉ + 1 ≤ 2^n`; the `comp` columns and the McCormick rows use `ub` itself. For a natural
+`ub` this is `intProd`. -/
+def intProdQ (n c p : Var) (lb ub : Rat) (name : String) : LP :=
+  if ub.den = 1 ∧ 0 ≤ ub.num then intProd n c p lb ub.num.toNat name else
+  let bits := List.range (numBits ub.ceil.toNat)
+  { cols := bits.map (fun i => { v := bitVar name i, lb := 0, ub := some 1, isInt := true })
+         ++ bits.map (fun i => { v := compVar name i, lb := lb, ub := some ub, isInt := false }),
+    rows := [rowEq (bits.map (fun i => (((2:Rat)^i), bitVar name i)) ++ [(-1, n)]) 0]
+         ++ bits.flatMap (fun i => binProd (bitVar name i) c (compVar name i) lb ub)
+         ++ [rowEq (bits.map (fun i => (((2:Rat)^i), compVar name i)) ++ [(-1, p)]) 0] }
+
 def zVar (name : String) (i : Nat) : Var := .ix ("z_" ++ name) i
 
 def listMax (l : List Rat) : Rat := l.foldl max (l.headD 0)
